@@ -227,21 +227,39 @@ def d4(chk, prog):
         except Undecided as e:
             raise AnalysisError(f"C09-D4: {e}")
     tb.done("bedcov output columns are misnamed: the base count must be the last column and the bin's own columns keep their names")
-    # count path: rows keep (chromosome, start, end, gene) through _rdc_chunk
-    fc = prog.fn(f"{COV}._rdc_chunk")
-    loops = [n for n in own_nodes(fc.node) if isinstance(n, ast.For)]
-    ok = len(loops) == 1 and norm(loops[0].iter) == "regions.coords(['gene'])" and [norm(x) for x in loops[0].target.elts] == ["chrom", "start", "end", "gene"] and \
-        any(isinstance(n, ast.Call) and norm(n.func) == "region_depth_count" and [norm(a) for a in n.args] == ["bamfile", "chrom", "start", "end", "gene", "min_mapq"] for n in own_nodes(fc.node))
-    chk.decide(ok, "bedcov-columns", "_rdc_chunk passes each bin's (chromosome, start, end, gene) to region_depth_count unchanged", f"{fc.qn}::row identity", fc.loc(),
-               "the count path must call region_depth_count(bamfile, chrom, start, end, gene, min_mapq) for every row of regions.coords(['gene'])")
+    # count path: the (count, row) pairs of region_depth_count become the table -- each field of the row tuple under its own column
+    # (that every bin reaches region_depth_count with its own coordinates and name is decided in D5b; this used to be a match on the source text)
     fi2 = prog.fn(f"{COV}.interval_coverages")
-    ok = any(isinstance(n, ast.Call) and norm(n.func) == "CNA.from_rows" and any(k.arg == "columns" and norm(k.value) == "CNA._required_columns + ('depth',)" for k in n.keywords) for n in own_nodes(fi2.node))
-    req = None
-    for st in prog.classes["CopyNumArray"].node.body:
-        if isinstance(st, ast.Assign) and norm(st.targets[0]) == "_required_columns":
-            req = ast.literal_eval(st.value)
-    chk.decide(ok and req == ("chromosome", "start", "end", "gene", "log2"), "bedcov-columns", "count rows (chrom, start, end, gene, log2, depth) match CNA columns + depth", f"{fi2.qn}::from_rows columns", fi2.loc(),
-               f"the tuple built by region_depth_count must line up with CNA._required_columns + ('depth',) = {req} + depth")
+    W.reset()
+    model = Model()
+    Lg, Dp = Term.sym("LOG2"), Term.sym("DEPTH", 0, INF)
+    model.prims[f"{COV}.interval_coverages_count"] = lambda it, *a, **k: [[3, ("chrQ", 5, 9, "GENE A", Lg, Dp)], [0, ("chrR", 20, 30, "H", -20, 0)]]
+    model.prims["cnvlib.samutil.bam_total_reads"] = lambda it, *a, **k: 0
+    model.prims["cnvlib.core.fbase"] = lambda it, f: "S"
+
+    class Handle:
+        def abs_iter(self):
+            return ["chrQ\t5\t9\tGENE A\n"]
+    model.builtins["open"] = lambda *a, **k: Handle()
+    clock = [0]
+
+    def now(it):
+        clock[0] += 2
+        return Fr(clock[0])
+    model.ext["time.time"] = now
+    it = Interp(prog, model)
+    try:
+        out = it.run(fi2.qn, ["b.bed", "S.bam", True, 0, 1, None])
+    except Undecided as e:
+        raise AnalysisError(f"C09-D4 count rows: {e}")
+    except Raised as e:
+        out = str(e)
+    c = out.data.cols if isinstance(out, GA) else {}
+    ok = isinstance(out, GA) and [k for k in c if not k.startswith("__")] == ["chromosome", "start", "end", "gene", "log2", "depth"] and list(c["chromosome"].v) == ["chrQ", "chrR"] \
+        and [int(T(x).cval()) for x in c["start"].v] == [5, 20] and [int(T(x).cval()) for x in c["end"].v] == [9, 30] and list(c["gene"].v) == ["GENE A", "H"] and same(c["log2"].v[0], Lg) and same(c["depth"].v[0], Dp) \
+        and out.meta.get("sample_id") == "S"
+    chk.decide(ok, "bedcov-columns", "count path: each (chrom, start, end, gene, log2, depth) tuple becomes a row under those column names, sample id from the BAM name", f"{fi2.qn}::from_rows columns", fi2.loc(),
+               f"the rows built by region_depth_count do not line up with the table's columns: {({k: [repr(x) for x in v.v] for k, v in c.items()} if c else out)}")
 
 
 class FileStub:
@@ -342,7 +360,7 @@ def d5b(chk, prog):
     """serial and parallel read counting: same bins in the same order, the caller's min_mapq at every region_depth_count"""
     fi = prog.fn(f"{COV}.interval_coverages_count")
     tb = Table(chk, "ordered-fanout", "interval_coverages_count: (bin, min_mapq, alignment file, reference) reaching region_depth_count, procs=1 vs procs=3", fi.loc(), fi.qn)
-    rows = [dict(chromosome=c, start=s, end=s + 100, gene=f"g{c}{s}") for c, s in (("chr1", 0), ("chr1", 500), ("chr2", 100), ("chr3", 0), ("chr3", 300))]
+    rows = [dict(chromosome=c, start=s, end=s + 100, gene=f"g{c}{s}") for c, s in (("chr1", 0), ("chr1", 500), ("chr2", 100), ("chr3", 0), ("chr3", 300), ("chr3", 700))]       # bin counts 2, 1, 3: not a self-inverse order by size
     null = ast.literal_eval(prog.module("cnvlib.params").assigns["NULL_LOG2_COVERAGE"])
     for mq, fasta in itertools.product([0, 30], [None, "ref.fa"]):
         traces = {}
